@@ -10,7 +10,7 @@ import sys
 import time
 
 V = os.path.dirname(os.path.dirname(os.path.abspath(__file__)))
-REPO = '/repo'
+REPO = os.environ.get('RBP_REPO', '/repo')      # a scratch clone can be used so that /repo stays untouched
 
 
 def sh(cmd, **kw):
@@ -40,13 +40,13 @@ def main():
             res = {}
             for c in checks:
                 t0 = time.time()
-                o = sh('cd %s && ./check %s --tier quick' % (V, c))
+                o = sh('cd %s && RBP_REPO=%s ./check %s --tier quick' % (V, REPO, c))
                 res[c] = {0: 'held', 1: 'VIOLATION', 2: 'tool-error'}.get(o.returncode, str(o.returncode)) + ' %.0fs' % (time.time() - t0)
             rows.append((i, 'tests pass' if tests_ok else 'TESTS FAIL: ' + t.stdout.strip(), res))
         finally:
             sh('git -C %s checkout -- .' % REPO)
     # rebuild the unmodified tree so that later checks start from a clean binary
-    sh('cd %s && ./check C16 --tier quick' % V)
+    sh('cd %s && RBP_REPO=%s ./check C16 --tier quick' % (V, REPO))
     bad = 0
     for i, t, res in rows:
         print('%-45s %-12s %s' % (i, t, res))
